@@ -604,6 +604,156 @@ def install(eng):
         return Struct('()', [Cell(SliceRef(d.seq, d.head, k)), Cell(SliceRef(d.seq, z3.simplify(d.head + k), z3.simplify(d.len - k)))])
     m(VD + r'as_slices$', m_dq_as_slices)
 
+    # ---------------------------------------------------------------- HashMap / HashSet: bounded association list
+    class MapV:
+        """hash map as an association list of (key, value cell) with pairwise distinct keys; key equality through value_eq"""
+        rust_ty = 'HashMap'
+
+        def __init__(self, entries=None, kty=None, vty=None):
+            self.entries = entries or []     # [(key, Cell(value))]
+            self.kty, self.vty = kty, vty
+
+        def copy_value(self, eng):
+            return MapV([(k, Cell(eng.copy_value(c.get(eng)))) for k, c in self.entries], self.kty, self.vty)
+    eng.MapV = MapV
+
+    def mp(eng, v):
+        while isinstance(v, Ref):
+            v = v.cell.get(eng)
+        if not isinstance(v, MapV):
+            raise Unsupported('expected a hash map, got ' + type(v).__name__)
+        return v
+
+    def key_of(eng, k):
+        while isinstance(k, Ref):
+            k = k.cell.get(eng)
+        return k
+
+    def key_eq(eng, a, b):
+        pb = getattr(a, 'ptr_binop', None)
+        if pb is not None:
+            return pb(eng, 'Eq', a, b)
+        return eng.value_eq(a, b, None)
+
+    def map_find(eng, m_, k):
+        """index of the entry with key k, or None (forks on key equality)"""
+        for i, (ki, _) in enumerate(m_.entries):
+            if eng.fork_bool(to_z3_bool(key_eq(eng, ki, k))):
+                return i
+        return None
+    eng.map_find = map_find
+
+    def mat_map(eng, ty, backing):
+        t = norm_ty(ty)
+        a = ty_args(t)
+        kty = a[0]
+        vty = a[1] if ty_head(t) != 'HashSet' and len(a) > 1 else '()'
+        n = backing.child('n').leaf(eng, z3.BitVecSort(64))
+        bound = eng.path_state.get('map_bound', 2)
+        eng.add_constraint(z3.ULE(n, bound))
+        cn = eng.concretize(n)
+        ents = []
+        for i in range(cn):
+            k = eng.materialise(kty, backing.child(f'k{i}'))
+            for (k2, _) in ents:
+                eng.add_constraint(z3.Not(to_z3_bool(key_eq(eng, k, k2))))
+            ents.append((k, Cell(Lazy(vty, backing.child(f'v{i}')))))
+        return MapV(ents, kty, vty)
+    eng.materialiser(r'^(hashbrown::|std::collections::)?(hash_map::)?HashMap<.*>$', mat_map)
+    eng.materialiser(r'^(hashbrown::|std::collections::)?(hash_set::)?HashSet<.*>$', mat_map)
+    HM = r'^(hashbrown::|std::collections::)?(hash_map::|hash_set::)?Hash(Map|Set)::'
+    m(HM + r'len$', lambda e, a, c: bv(len(mp(e, a[0]).entries), 64))
+    m(HM + r'is_empty$', lambda e, a, c: len(mp(e, a[0]).entries) == 0)
+    m(HM + r'(reserve|shrink_to_fit)$', lambda e, a, c: UNIT)
+    m(HM + r'(new|with_hasher|with_capacity_and_hasher|with_capacity)$', lambda e, a, c: MapV())
+    m(r'^<(hashbrown::|std::collections::)?(hash_map::|hash_set::)?Hash(Map|Set) as (std::default::|core::default::)?Default>::default$', lambda e, a, c: MapV())
+
+    def m_map_get(eng, args, ctx):
+        m_ = mp(eng, args[0])
+        k = key_of(eng, args[1])
+        oty = norm_ty(ctx.dest_ty) if ctx.dest_ty else 'Option'
+        i = map_find(eng, m_, k)
+        if i is None:
+            return opt(eng, oty)
+        return opt(eng, oty, Ref(m_.entries[i][1]))
+    m(HM + r'(get|get_mut)$', m_map_get)
+
+    def m_map_contains(eng, args, ctx):
+        return map_find(eng, mp(eng, args[0]), key_of(eng, args[1])) is not None
+    m(HM + r'(contains_key|contains)$', m_map_contains)
+
+    def m_map_insert(eng, args, ctx):
+        m_ = mp(eng, args[0])
+        k = args[1]
+        v = args[2] if len(args) > 2 else UNIT
+        oty = norm_ty(ctx.dest_ty) if ctx.dest_ty else 'Option'
+        i = map_find(eng, m_, k)
+        is_set = 'HashSet' in ctx.norm or len(args) == 2
+        if i is None:
+            m_.entries.append((k, Cell(v)))
+            return True if is_set else opt(eng, oty)
+        old = m_.entries[i][1].get(eng)
+        m_.entries[i][1].set(eng, v)
+        return False if is_set else opt(eng, oty, old)
+    m(HM + r'insert$', m_map_insert)
+
+    def m_map_remove(eng, args, ctx):
+        m_ = mp(eng, args[0])
+        k = key_of(eng, args[1])
+        oty = norm_ty(ctx.dest_ty) if ctx.dest_ty else 'Option'
+        i = map_find(eng, m_, k)
+        if i is None:
+            return False if 'HashSet' in ctx.norm else opt(eng, oty)
+        old = m_.entries.pop(i)[1].get(eng)
+        return True if 'HashSet' in ctx.norm else opt(eng, oty, old)
+    m(HM + r'remove$', m_map_remove)
+
+    class HashIter:
+        def __init__(self, m_, mode):
+            self.m, self.i, self.mode = m_, 0, mode
+
+        def iter_next(self, eng, fr):
+            if self.i >= len(self.m.entries):
+                return None
+            k, c = self.m.entries[self.i]
+            self.i += 1
+            if self.mode == 'keys':
+                return Ref(Cell(k))
+            if self.mode == 'values':
+                return Ref(c)
+            return Struct('()', [Cell(Ref(Cell(k))), Cell(Ref(c))])
+
+        def copy_value(self, eng):
+            return self
+    m(HM + r'(iter|iter_mut)$', lambda e, a, c: HashIter(mp(e, a[0]), 'keys' if 'HashSet' in c.norm else 'pairs'))
+    m(HM + r'keys$', lambda e, a, c: HashIter(mp(e, a[0]), 'keys'))
+    m(HM + r'values$', lambda e, a, c: HashIter(mp(e, a[0]), 'values'))
+    m(r'^<(hashbrown::|std::collections::)?(hash_map::|hash_set::)?(map::|set::)?(Iter|IterMut|Keys|Values) as (std::iter::|core::iter::)?Iterator>::next$', lambda e, a, c: m_gen_next(e, a, c))
+
+    def m_for_each(eng, args, ctx):
+        it, f = args
+        n = 0
+        while True:
+            v = it_next(eng, it, ctx.frame)
+            if v is None:
+                return UNIT
+            eng.call_value(ctx.frame, f, [v])
+            n += 1
+            if n > 64:
+                raise PathEnd('unwind', 'for_each')
+    m(r'^<.* as (std::iter::|core::iter::)?Iterator>::for_each$', m_for_each, fallback=True)
+
+    def m_map_retain(eng, args, ctx):
+        m_, f = mp(eng, args[0]), args[1]
+        keep = []
+        for k, c in m_.entries:
+            r = eng.call_value(ctx.frame, f, [Ref(Cell(k)), Ref(c)] if 'HashMap' in ctx.norm else [Ref(Cell(k))])
+            if eng.fork_bool(to_z3_bool(r)):
+                keep.append((k, c))
+        m_.entries[:] = keep
+        return UNIT
+    m(HM + r'retain$', m_map_retain)
+
     # ---------------------------------------------------------------- Rc<RefCell<T>>
     class RcRefCell:
         rust_ty = 'Rc<RefCell>'
